@@ -2513,3 +2513,51 @@ def r_evt_curr_stable(rep, hc):
             rep.inconc("R-EVT-CURR", key, "only %d use(s) of the step-end event values found (expected the per-event read and the prev_event copies)" % len(m.n_sinks))
         else:
             rep.ok("R-EVT-CURR", key, "`%s` holds the evaluation at (x, y) at all %d reads as current value / copies into prev_event" % (buf, len(m.n_sinks)))
+
+
+def r_config_frame(rep, f):
+    """An event's configuration is two independent settings, the direction filter and the terminal count, each changed through
+    its own setters.  Frame rule: a `&mut self` setter of EventConfig writes exactly one field and leaves the other as it
+    found it - a setter that rebuilds the whole value (`*self = Self { x, ..Self::new() }`) silently resets what the caller
+    configured before (direction filter lost after terminal_count(n): wrong-direction crossings reported and counted)."""
+    ADT = "solve::event::EventConfig"
+    adt = f.adts.get(ADT)
+    fields = [fl.get("name") for fl in (adt or {}).get("fields", [])] if adt else []
+    n = 0
+    for b in f.body_list:
+        fn = b["def"]
+        if not fn.startswith(ADT + "::") or "::{closure" in fn:
+            continue
+        ps = b.get("params", [])
+        if not ps or "&mut" not in (ps[0].get("ty") or "") or ADT not in (ps[0].get("ty") or ""):
+            continue
+        sid = ps[0].get("id")
+        n += 1
+        key = "R-CONFIG-FRAME:%s" % fn
+        written, whole = set(), None
+        for a in tast.find(b["body"], lambda z: z.get("k") in ("Assign", "AssignOp")):
+            l = a["l"]
+            if l.get("k") == "Field" and tast.contains(l["e"], lambda q: q.get("k") == "Path" and q.get("id") == sid):
+                written.add(l.get("name") or (l.get("fdef") or "").split("::")[-1])
+            elif l.get("k") in ("Deref", "Unary") and tast.contains(l, lambda q: q.get("k") == "Path" and q.get("id") == sid):
+                # *self = <value>: every field is written, except those a struct literal takes over from `..*self`
+                r = a["r"]
+                keeps = r.get("k") == "Struct" and r.get("base") is not None and tast.contains(r["base"], lambda q: q.get("k") == "Path" and q.get("id") == sid)
+                if keeps:
+                    written |= {fl_.get("name") for fl_ in r.get("fields", [])}
+                else:
+                    whole = a
+        # setters called on self count as their own writes
+        for c in tast.find(b["body"], lambda z: z.get("k") == "MethodCall" and (z.get("def") or "").startswith(ADT + "::") and z["recv"].get("k") == "Path" and z["recv"].get("id") == sid):
+            written.add("via " + c["def"].split("::")[-1])
+        if whole is not None:
+            rep.violation("R-CONFIG-FRAME", key, "the setter replaces the whole configuration (`%s`): the setting it is not about is reset to its default, whatever the caller "
+                          "configured before" % tast.render(whole)[:80], whole.get("sp"))
+        elif len(written) == 1:
+            rep.ok("R-CONFIG-FRAME", key, "writes only `%s`" % sorted(written)[0])
+        elif not written:
+            rep.inconc("R-CONFIG-FRAME", key, "no field write found in a &mut self method of EventConfig", b.get("sp"))
+        else:
+            rep.violation("R-CONFIG-FRAME", key, "the setter writes %d fields (%s): one call changes the direction filter and the terminal count together" % (len(written), ", ".join(sorted(written))), b.get("sp"))
+    if n < 4:
+        rep.inconc("R-CONFIG-FRAME", "R-CONFIG-FRAME:floor", "only %d &mut self setters of EventConfig found (expected >= 4)" % n)
